@@ -128,7 +128,7 @@ def run(model, col, tier):
     add = vctx.own_method("Add")
     get = vctx.own_method("Get")
     cinit = vctx.own_method("__init__")
-    pstore = [n for n in ast.walk(cinit) if isinstance(n, ast.Assign) and isinstance(n.targets[0], ast.Attribute) and isinstance(n.value, ast.Name) and n.value.id == "parent"]
+    pstore = [n for n in ast.walk(cinit) if isinstance(n, ast.Assign) and isinstance(n.targets[0], ast.Attribute) and isinstance(n.value, ast.Name) and len(cinit.args.args) > 1 and n.value.id == cinit.args.args[1].arg]
     col.check(bool(pstore), "R12.2", f"{NAMES}::Context.__init__ keeps its parent", "parent table is stored", "the parent table is not stored: the chain is cut", NAMES, cinit)
     pfield = pstore[0].targets[0].attr if pstore else "__parent"
     okadd = False
@@ -298,4 +298,6 @@ def run(model, col, tier):
     col.check("self.__parent.GetFieldType" in unparse(gft) and "UnknownSymbolException" in unparse(gft), "R12.5", f"{TYPES}::Scope.GetFieldType walks outward",
               "own symbols first, then the parent scope, unknown names raise", "name lookup does not walk own scope -> parent -> error", TYPES, gft)
     rvm = model.cls(TYPES, "Scope").own_method("RegisterVariable")
-    col.check("self.__symbols[symbol] = typeinfo" in unparse(rvm), "R12.5", f"{TYPES}::Scope.RegisterVariable", "stores the symbol in the scope's own table", None, TYPES, rvm)
+    from ..sem import alpha as _alpha125
+
+    col.check("self.__symbols[p0] = p1" in _alpha125(rvm), "R12.5", f"{TYPES}::Scope.RegisterVariable", "stores the symbol in the scope's own table", None, TYPES, rvm)
